@@ -370,3 +370,73 @@ pub fn derived_operands(kind: &str) -> (Ty, Ty) {
         _ => (Ty::IntervalYM, Ty::IntervalYM),
     }
 }
+
+
+// ---------------------------------------------------------------------------
+// Containers: several values in ONE stream.
+// ---------------------------------------------------------------------------
+
+fn table_generic<T>(vals: Vec<T>, codec: Codec) -> Result<(), (&'static str, String)>
+where
+    T: serde::Serialize + serde::de::DeserializeOwned + PartialEq + Copy + std::fmt::Debug,
+{
+    const SENTINEL: u32 = 0xA5C3_5A3C;
+    let r = std::panic::catch_unwind(std::panic::AssertUnwindSafe(|| -> Result<(), (&'static str, String)> {
+        // Vec<T>
+        let mut buf: Vec<u8> = Vec::new();
+        ser(&vals, codec, &mut buf).map_err(|e| ("serialize_failed", format!("serializing Vec failed: {e}")))?;
+        let back: Vec<T> = de(codec, &buf[..]).map_err(|_| ("roundtrip", "Vec does not decode".to_string()))?;
+        if back != vals {
+            return Err(("roundtrip", format!("Vec came back as {:?}", back)));
+        }
+        // Vec<Option<T>>
+        let opts: Vec<Option<T>> = vals.iter().enumerate().map(|(i, v)| if i % 3 == 2 { None } else { Some(*v) }).collect();
+        let mut buf: Vec<u8> = Vec::new();
+        ser(&opts, codec, &mut buf).map_err(|e| ("serialize_failed", format!("serializing Vec<Option> failed: {e}")))?;
+        let back: Vec<Option<T>> = de(codec, &buf[..]).map_err(|_| ("roundtrip", "Vec<Option> does not decode".to_string()))?;
+        if back != opts {
+            return Err(("roundtrip", format!("Vec<Option> came back as {:?}", back)));
+        }
+        // (T, sentinel, T): anything out of step shows in the sentinel or the last element
+        let first = vals[0];
+        let last = vals[vals.len() - 1];
+        let tup = (first, SENTINEL, last);
+        let mut buf: Vec<u8> = Vec::new();
+        ser(&tup, codec, &mut buf).map_err(|e| ("serialize_failed", format!("serializing tuple failed: {e}")))?;
+        let back: (T, u32, T) = de(codec, &buf[..]).map_err(|_| ("roundtrip", "tuple (value, sentinel, value) does not decode".to_string()))?;
+        if back != tup {
+            return Err(("roundtrip", format!("tuple (value, sentinel, value) came back as {:?}", back)));
+        }
+        Ok(())
+    }));
+    match r {
+        Ok(x) => x,
+        Err(_) => Err(("panic", last_panic())),
+    }
+}
+
+pub fn table_round_trip(ty: Ty, raws: &[i64], codec: Codec) -> Result<(), (&'static str, String)> {
+    if raws.is_empty() {
+        return Ok(());
+    }
+    macro_rules! go {
+        ($mk:expr) => {{
+            let mut v = Vec::new();
+            for r in raws {
+                match $mk(*r) {
+                    Ok(x) => v.push(x),
+                    Err(_) => return Ok(()),
+                }
+            }
+            table_generic(v, codec)
+        }};
+    }
+    match ty {
+        Ty::Date => go!(|r: i64| Date::try_from_days(r as i32)),
+        Ty::Timestamp => go!(Timestamp::try_from_usecs),
+        Ty::Time => go!(Time::try_from_usecs),
+        Ty::IntervalYM => go!(|r: i64| IntervalYM::try_from_months(r as i32)),
+        Ty::IntervalDT => go!(IntervalDT::try_from_usecs),
+        Ty::Oracle => go!(OracleDate::try_from_usecs),
+    }
+}
